@@ -143,7 +143,8 @@ def two_store_differential(ctx, n):
             continue
         # setup: a populated store; variant B differs inside the dark subtrees only
         def setup_hist(variant):
-            h = []
+            # both homes exist in both variants (the gate creates them): the variants differ INSIDE dark subtrees only
+            h = [(1, ("RPropfind", (10,), False)), (2, ("RPropfind", (11,), False))]
             for c in [(10, 20), (10, 21), (11, 20), (11, 22), (10, 22)]:
                 dark = any(c[:len(d)] == d for d in ds)
                 owner = 1 if c[0] == 10 else 2
